@@ -44,7 +44,7 @@ package kvql
 //@ func (e *BinaryOpExpr) Execute(kv KVPair, ctx *ExecuteCtx) (result any, err error) implements Expression.Execute
 //@   props C01 C05
 //@   ifaceassumed evalok evalv
-//@   requires wfBin(e)
+//@   requires wfBetween(e)
 //@   ensures kinds: err == nil ==> ((e.Op == And || e.Op == Or || e.Op == Eq || e.Op == NotEq || e.Op == Gt || e.Op == Gte || e.Op == Lt || e.Op == Lte) ==> isbool(result)) && ((e.Op == Add || e.Op == Sub || e.Op == Mul || e.Op == Div) ==> (is(e.Left, *StringExpr) ==> isstr(result)) && (is(e.Left, *NumberExpr) && is(e.Right, *NumberExpr) ==> isint64(result)) && ((is(e.Left, *FloatExpr) && (is(e.Right, *NumberExpr) || is(e.Right, *FloatExpr))) || (is(e.Left, *NumberExpr) && is(e.Right, *FloatExpr)) ==> isf64(result)) && (is(e.Left, *FloatExpr) || is(e.Right, *FloatExpr) ==> !isint64(result)))
 //@   use ev_lit(e.Left, val(kv.Key), val(kv.Value))
 //@   use ev_lit(e.Right, val(kv.Key), val(kv.Value))
